@@ -195,6 +195,62 @@ def rule_r4(facts, rep, rid="C13-R4"):
     rep.floor(rid, "ordering users of Position", len(users), 1)
 
 
+def rule_r7(facts, rep, rid="C13-R7"):
+    """Ranges are read off the source, end and start independently: the reader looks both ends of an inline range up in the line table (an inline may
+    span several lines), and the destination range of a link ends where the link ends in the source - not where a length computed from parsed
+    (unescaped) text would put it."""
+    f = facts.fn("MarkdownEventsReader::to_inline_range")
+    rep.saw_fn(f)
+    c = ctx(f)
+    from .common import through_lets
+    key = f.def_ + "|end-looked-up-from-range-end"
+    rng = [x for x in fb.walk(f.body) if x.get("k") == "struct" and fb.norm(x.get("def", "")).endswith(("ops::Range", "range::Range", "model::InlineRange"))]
+    if not rng:
+        rep.anchor_missing(rid, "the start..end range built by MarkdownEventsReader::to_inline_range")
+    else:
+        flds = {fl["name"]: fl["e"] for fl in rng[-1]["fields"]}
+        e_end, e_start = flds.get("end"), flds.get("start")
+        m_end = c.mentions(e_end) if e_end is not None else set()
+        # assignments to the locals the end position is built from (`end = line; end_char = range.end - line_start`)
+        params_ = set(lid for p_ in f.params for _n, lid in fb.pat_bindings(p_["pat"]))
+        ids = set(y["id"] for y in fb.walk(e_end or {}) if y.get("k") == "path" and y.get("res") == "local") - params_
+        for x in fb.walk(f.body):
+            if x.get("k") in ("assign", "assignop") and x["l"].get("k") == "path" and x["l"].get("id") in ids:
+                m_end |= c.mentions(x["r"])
+        uses_end = ("field", "end") in m_end
+        uses_len = any(a[0] == "call" and a[1] and a[1].endswith(("::len", "ExactSizeIterator::len")) for a in m_end)
+        start_ids = set(y["id"] for y in fb.walk(e_start or {}) if y.get("k") == "path" and y.get("res") == "local") - params_
+        from_start = bool(ids & start_ids) or ("field", "start") in c.mentions(e_end or {})
+        if uses_end and not uses_len and not from_start:
+            rep.ok(rid, key, "the end position is computed from range.end with its own line lookup", loc(f, rng[-1]))
+        else:
+            rep.violation(rid, key, "the end of an inline range is not looked up from `range.end` on its own (uses range.end: %s, derived from the start position: %s, from a length: %s): "
+                          "a link whose text wraps over a line break gets an end on the start's line, and the cursor on its second line is no longer inside it" % (uses_end, from_start, uses_len), loc(f, rng[-1]))
+    g = facts.fn("DocumentInline::key_range")
+    rep.saw_fn(g)
+    cg_ = ctx(g)
+    key = g.def_ + "|end-from-source-span"
+    lit = [x for x in fb.walk(g.body) if x.get("k") == "struct" and fb.norm(x.get("def", "")).endswith("model::InlineRange")]
+    if not lit:
+        rep.anchor_missing(rid, "InlineRange literal in DocumentInline::key_range")
+        return
+    flds = {fl["name"]: fl["e"] for fl in lit[0]["fields"]}
+    endp = through_lets(cg_, flds.get("end"))
+    ch = None
+    if endp is not None and endp.get("k") == "struct":
+        ch = {fl["name"]: fl["e"] for fl in endp["fields"]}.get("character")
+    m = cg_.mentions(ch) if ch is not None else set()
+    pv = cg_.vprov(ch) if ch is not None else set()
+    end_by_pattern = any(a[0] == "patpos" and str(a[1]).endswith(".end") for a in pv)        # `let InlineRange { start, end } = &link.inline_range;`
+    from_span = ("field", "inline_range") in m and (("field", "end") in m or end_by_pattern)
+    from_text = any(a[0] == "call" and a[1] and a[1].endswith("::len") for a in m) or ("field", "url") in m
+    if from_span and not from_text:
+        rep.ok(rid, key, "end.character = inline_range.end.character - 1 (the closing parenthesis)", loc(g, lit[0]))
+    else:
+        rep.violation(rid, key, "the end of the destination range is computed from %s instead of the link's source span: `url` is the parsed, unescaped destination, so for `my\\_note`, "
+                      "`q&amp;a` or `<..>` the range handed to prepare-rename is shorter than the text in the editor" % ("a text length" if from_text else "something other than inline_range.end"), loc(g, lit[0]))
+
+
 def run(facts, rep, tier):
     rep.rule("C13-R1", "The line table is built from real byte offsets of the line terminators (never lines()/split_terminator() + constant) and is compared with `<=`.")
     rep.rule("C13-R2", "Unit discipline at the LSP boundary: the fns converting between model::Position (byte columns) and lsp_types::Position (UTF-16 code units) "
@@ -214,3 +270,5 @@ def run(facts, rep, tier):
     rep.rule("C13-R6", "= C04-R4: the per-note line table is only rebuilt by the re-parse, so Graph::update_key must reach Graph::from_markdown on every path (no `nothing changed` shortcut): an "
              "edit that only moves blocks (blank lines added on top) otherwise leaves every line answer pointing at the old positions.")
     c04.rule_r4(facts, rep, "C13-R6")
+    rep.rule("C13-R7", "Ranges come from source positions: both ends of an inline range are looked up in the line table independently; the destination range of a link ends at the link's source end.")
+    rule_r7(facts, rep)
